@@ -1,11 +1,149 @@
 """C12 -- query results do not depend on sharding, node placement or response order (module Query)."""
 import json
+import os
 
 import vcore
 from props import querycommon as qc
 
 
+RG, RG_CFG = "RootGatherTrace", "RootGatherTrace.cfg"
+RG_ACTIONS = ["TReset", "TPlan", "TSend", "TAnswer", "TResult"]
+
+
+def _rg_describe(sig, bad, rel, info):
+    """Signature of a rejected root-gather run: which event, and for a Result what was returned while how many of the
+    planned targets had answered (what was observed, not why)."""
+    try:
+        ev = json.loads(bad[min(rel, len(bad)) - 1])
+    except ValueError:
+        return sig
+    if ev.get("ev") != "Result":
+        return sig
+    planned, answered = 0, 0
+    for ln in bad[: rel - 1]:
+        d = json.loads(ln)
+        if d.get("ev") == "Plan":
+            planned = len(d["targets"])
+        elif d.get("ev") == "Answer":
+            answered += 1
+    what = "ok" if ev.get("ok") else str(ev.get("err")).split(":")[0]
+    return "%s:%s:%s" % (sig, what, "all-answered" if answered >= planned else "answers-outstanding")
+
+
+def root_gather(ctx, thorough):
+    """The root's gathering of the leaf answers (module RootGather): real MetricDataSearch / pipeline / RootMetricContext /
+    task manager, one data set split over 1..3 leaf targets in every way, every answer delivered at a scripted point
+    (inside its own send, after all sends in a scripted order, concurrently, never)."""
+    # ---- leg M: every target set x answer kinds x interleaving of sends and answers; counting the expected answers at
+    # send time instead of plan time must break "a completed query has heard every planned target"
+    ctx.model_check("MCRootGather", "MCRootGather.cfg", timeout=600, coverage=thorough)
+    ctx.model_check("MCRootGather", "MCRootGather_dev_sendcount.cfg", expect="violation", timeout=300)
+    # ---- leg T
+    tr = os.path.join(ctx.scratch, "queryroot.ndjson")
+    scr = os.path.join(ctx.scratch, "scr-queryroot")
+    os.makedirs(scr, exist_ok=True)
+    args = ["--points", 4, "--sets", 3, "--sampled", 2, "--all"] if thorough else ["--points", 3, "--sets", 2, "--sampled", 1]
+    summ, rc, out = ctx.run_vdrive(["queryroot", "--seed", ctx.seed, "--out", tr, "--scratch", scr] + args, timeout=3000)
+    for u in summ["unresolved"]:
+        raise vcore.Unresolved("queryroot driver: %s" % u)
+    ex = summ["extra"]
+    total = summ["traces"]
+    ok = vcore.validate_all(ctx, RG, RG_CFG, tr, describe=_rg_describe, dfs=False, timeout=1800)
+    # what was covered
+    first_inline = sum(v for k, v in ex["schedules"].items() if k.startswith("inline,") and ("late" in k or "free" in k))
+    outcomes = {}
+    for ln in vcore.read_lines(tr):
+        if '"ev":"Result"' in ln:
+            d = json.loads(ln)
+            k = "ok" if d["ok"] else d["err"].split(":")[0]
+            outcomes[k] = outcomes.get(k, 0) + 1
+    ctx.extra["root_gather"] = {
+        "runs": total, "accepted": ok, "events_by_kind": ex["events_by_kind"], "placements": ex["placements"],
+        "schedule_shapes": len(ex["schedules"]), "first_answer_before_next_send": first_inline,
+        "outcomes": outcomes, "answers_after_completion": ex["answers_after_completion"],
+        "request_context_ended_while_waiting": ex["request_context_ended"],
+    }
+    ctx.log("root gather: %d runs (%d accepted), %d schedule shapes, %d with an answer handled before the next send, outcomes %s" % (
+        total, ok, len(ex["schedules"]), first_inline, outcomes))
+    if total < 150 or first_inline < 20 or outcomes.get("ok", 0) < 80 or not outcomes.get("timeout") or not outcomes.get("error") \
+            or not outcomes.get("notfound"):
+        raise vcore.Unresolved("root gather: too few runs / schedules / outcomes (%s)" % ctx.extra["root_gather"])
+    # binding self-tests on an accepted run with >= 2 leaves holding data, the last answer late
+    acc = getattr(ctx, "accepted_path", None)
+    src = None
+    if acc:
+        for t in vcore.split_traces(vcore.read_lines(acc)):
+            evs = [json.loads(x) for x in t]
+            if evs[-1].get("ev") == "Result" and evs[-1].get("ok") and len(evs[-1]["cells"]) >= 1 and evs[-2].get("ev") == "Answer" \
+                    and sum(1 for k in evs[0]["kinds"].values() if k == "data") >= 2 and sum(1 for e in evs if e.get("ev") == "Answer") >= 2:
+                src = os.path.join(ctx.scratch, "rg-selftest.ndjson")
+                with open(src, "w") as f:
+                    f.write("".join(t))
+                break
+    if not src:
+        raise vcore.Unresolved("root gather: no accepted run for the binding self-tests")
+
+    def early_result(lines):
+        return lines[:-2] + [lines[-1], lines[-2]]
+
+    def other_value(lines):
+        d = json.loads(lines[-1])
+        d["cells"][0][2] += 1000
+        return lines[:-1] + [json.dumps(d, separators=(",", ":")) + "\n"]
+
+    def lost_cell(lines):
+        d = json.loads(lines[-1])
+        d["cells"].pop()
+        d["series"] = len(set(c[0] for c in d["cells"]))
+        return lines[:-1] + [json.dumps(d, separators=(",", ":")) + "\n"]
+
+    def unsent_answer(lines):
+        out, moved = [], None
+        for ln in lines:
+            if moved is None and '"ev":"Send"' in ln:
+                moved = ln
+                continue
+            out.append(ln)
+        return out[:-1] + [moved, out[-1]] if moved else None
+
+    for mut, what in ((early_result, "the result is returned before the last answer is handled"),
+                      (other_value, "a result value + 1000"),
+                      (lost_cell, "a cell of the merge is missing"),
+                      (unsent_answer, "an answer is handled before its request was sent")):
+        vcore.corrupt_selftest(ctx, RG, RG_CFG, src, mut, what)
+    # no vacuous binding: every trace action taken
+    res = ctx.tlc(RG, RG_CFG, workers=1, files={"trace.ndjson": src}, coverage=True, count=False)
+    taken = {}
+    for k, v in res.coverage.items():
+        name = k.split("@")[0]
+        if name in RG_ACTIONS:
+            taken[name] = max(taken.get(name, 0), v)
+    ctx.extra["root_gather"]["trace_action_coverage"] = taken
+    missing = [a for a in RG_ACTIONS if not taken.get(a)]
+    if res.kind != "ok" or missing:
+        raise vcore.Unresolved("root gather: vacuous binding, trace actions never taken: %s (tlc %s)" % (missing, res.kind))
+    ctx.assumptions += [
+        "root gather leg: the root side is real (query.MetricDataSearch, execute pipeline with its send stages, RootMetricContext, "
+        "query.NewTaskManager with a real worker pool; the pool is the Filtering pool of a tsdb database, the metric registry an empty one "
+        "allocated by reflection because both types are internal); the leaves are scripted: their payload is built by the real leaf reduce code "
+        "(SeriesAggregator -> LeafReduceContext.Reduce -> BuildResultSet) from the statement the root sent, the tag value of a group is put into "
+        "the series by the harness (a leaf resolves it through its meta database); one field of type sum / min / max, <= 2 groups",
+        "root gather leg: 'the root waits' is observed as the query goroutine parked in the select of MetricContext.waitResponse (goroutine dump), "
+        "late answers are delivered only then; a lost answer ends with the request context being cancelled while the root waits",
+    ]
+
+
+def _is_root_gather(path):
+    for ln in vcore.read_lines(path)[:3]:
+        if '"ev":"Plan"' in ln or ('"ev":"Reset"' in ln and '"leaves"' in ln and '"kinds"' in ln):
+            return True
+    return False
+
+
 def run(ctx, replay):
+    if replay and _is_root_gather(replay):
+        vcore.validate_all(ctx, RG, RG_CFG, replay, describe=_rg_describe, dfs=False)
+        return
     if replay:
         # the replayed trace is judged like a fresh one: deviations -> known findings, anything else -> violation
         acc, stats, _ = qc.judge(ctx, replay)
@@ -55,6 +193,8 @@ def run(ctx, replay):
         return False
     qc.selftests(ctx, tr, marked, thorough, extra=extra, want_extra=multi_leaf_answer)
     qc.coverage(ctx, [tr], need=["TReset", "TWrite", "TFlush", "TQuery"])
+    # ---- the root's gathering protocol on the real root side (module RootGather)
+    root_gather(ctx, thorough)
     ctx.assumptions += qc.ASSUMPTIONS + [
         "layouts: rows routed by the real BrokerBatchRows shard/family iterators over 1..3 shards of one engine; leaves = real leaf task processors "
         "with disjoint shard sets (also a leaf without shards); 0..2 compute nodes = real intermediate task processors (group-by queries only, first "
